@@ -88,8 +88,12 @@ CLAIMS = {
                  "of each other without repeated names, with unknown attributes anywhere (AttrEquiv), and attrEquiv_padded: blanks around names, =, values and commas "
                  "never matter (tokenizer inversion attrPairs_render). L0 - media_lines_layout / master_lines_layout: the complete string-level parsers depend on the "
                  "text after #EXTM3U only through its trimmed non-empty lines, with lines_seen, crlf_irrelevant, blank_lines_irrelevant, line_padding_irrelevant, "
-                 "trailing_space_irrelevant. Not proved as one composed string-level statement: the three layers are separate theorems (the composition is exercised "
-                 "by the run); EXTINF / BYTERANGE value syntax is outside the listed transformations. Tie + oracle: every base text (fixtures, generated media and "
+                 "trailing_space_irrelevant. Composition: classify_*_layout (a whole tag line in two spellings classifies to the same typed line, through the "
+                 "dispatch table regenerated from the source), lineItems_rawEquiv, and media_presentation / master_presentation - two texts whose line items "
+                 "classify into typed-line lists that agree up to comment / VERSION lines and swaps of independent lines give the same result through the "
+                 "string-level entry points. known_names_match ties the 'known attribute' predicates to the attribute names matched in the current source "
+                 "(Generated/AttrNames.lean). EXTINF / BYTERANGE value syntax and the attributes of the two STREAM-INF tags at line level are outside these "
+                 "theorems (run-validated). Tie + oracle: every base text (fixtures, generated media and "
                  "master playlists) and 11 kinds of transformations written in Python from RFC 8216 section 4 (singly and composed) must parse identically on library "
                  "and model, and each transformed text must parse to the observation of its original on the library; unknown-tag insertion must change the unknown list only."),
         "design_ref": "DESIGN.md §7 C12",
